@@ -678,6 +678,49 @@ FN_OVERLAYS['graph::graph_node_state_switch'] = dict(proofs={'body_start': '''  
         }
 '''})
 
+# ------------------------------------------------------------------ C09: the adapter-based vector instructions (bodies reach Verus through the R9 desugaring)
+_bv = 'top(S0.boolvec, 0).values@'
+_iv = 'top(S0.intvec, 0).values@'
+_fv = 'top(S0.floatvec, 0).values@'
+V_ = 'crate::push::vector::'
+row('BOOLVECTOR.COUNT', ['C09'], fired='(S0.boolvec.len() >= 1)', pushes=[('int', '%scount_true(%s, %s.len()) as i32' % (V_, _bv, _bv))])
+row('INTVECTOR.SUM', ['C09'], fired='(S0.intvec.len() >= 1)', pushes=[('int', '%swsum(%s, %s.len())' % (V_, _iv, _iv))])
+row('INTVECTOR.MEAN', ['C09'], fired='(S0.intvec.len() >= 1)', pushes=[('float', 'f32_div(i32_to_f32(%swsum(%s, %s.len())), usize_to_f32(%s.len() as usize))' % (V_, _iv, _iv, _iv))])
+row('INTVECTOR.BOOLINDEX', ['C09'], takes=[('boolvec', 1)], pushes=[('intvec', None)], clauses=[
+    ('fired.value.intvec.0', 'S0.boolvec.len() >= 1 ==> top(S1.intvec, 0).values@ == %strue_idx(%s, %s.len())' % (V_, _bv, _bv))])
+row('FLOATVECTOR.*SCALAR', ['C09'], takes=[('float', 1)], touches=['floatvec'], clauses=[
+    top_vec_becomes('floatvec', 'Seq::new(%s.len(), |i: int| f32_mul(%s[i], top(S0.float, 0)))' % (_fv, _fv), 'S0.float.len() >= 1 && S0.floatvec.len() >= 1'),
+    ('{C09,C10}unfired.floatvec', '!(S0.float.len() >= 1 && S0.floatvec.len() >= 1) ==> S1.floatvec == S0.floatvec')])
+FN_OVERLAYS['vector::bool_vector_count'] = dict(loops={0: '''
+            //bind V = if let Some\\((\\w+)\\) = push_state\\.bool_vector_stack\\.get\\(0\\)
+            invariant ghost_iter.seq().len() == $V.values@.len(), ghost_iter.index@ <= $V.values@.len(),
+                forall|k: int| 0 <= k < $V.values@.len() ==> *#[trigger] ghost_iter.seq()[k] == $V.values@[k],
+                r9_c == crate::push::vector::count_true($V.values@, ghost_iter.index@ as nat), r9_c <= ghost_iter.index@, $V.values@.len() < 0x7fff_ffff,
+'''}, proofs={'loop 0 start': '''            //bind V = if let Some\\((\\w+)\\) = push_state\\.bool_vector_stack\\.get\\(0\\)
+            proof { crate::push::vector::lemma_count_true_le($V.values@, (ghost_iter.index@ + 1) as nat); }
+'''})
+for _p, _stk in [('vector::int_vector_sum', 'int_vector_stack'), ('vector::int_vector_mean', 'int_vector_stack')]:
+    FN_OVERLAYS[_p] = dict(loops={0: '''
+            //bind V = if let Some\\((\\w+)\\) = push_state\\.%s\\.get\\(0\\)
+            invariant ghost_iter.seq().len() == $V.values@.len(), ghost_iter.index@ <= $V.values@.len(),
+                forall|k: int| 0 <= k < $V.values@.len() ==> *#[trigger] ghost_iter.seq()[k] == $V.values@[k],
+                acc == crate::push::vector::wsum($V.values@, ghost_iter.index@ as nat),
+''' % _stk})
+FN_OVERLAYS['vector::int_vector_bool_index'] = dict(loops={0: '''
+            //bind V = if let Some\\((\\w+)\\) = push_state\\.bool_vector_stack\\.pop\\(\\)
+            //bind R = let mut (\\w+) = vec!\\[\\];
+            invariant seq_i32(&$R).len() == $R@.len(), $V.values@.len() < 0x7fff_ffff,
+                $R@ == crate::push::vector::true_idx($V.values@, ghost_iter.index@ as nat),
+'''})
+FN_OVERLAYS['vector::float_vector_multiply_scalar'] = dict(loops={0: '''
+            //bind FV = if let Some\\((\\w+)\\) = push_state\\.float_vector_stack\\.get_mut\\(0\\)
+            invariant $FV.values@.len() == fv0.len(), ghost_iter.seq().len() == fv0.len(),
+                forall|k: int| 0 <= k < ghost_iter.index@ ==> #[trigger] $FV.values@[k] == f32_mul(fv0[k], f),
+                forall|k: int| ghost_iter.index@ <= k < fv0.len() ==> #[trigger] $FV.values@[k] == fv0[k],
+'''}, proofs={'loop 0 before': '''            //bind FV = if let Some\\((\\w+)\\) = push_state\\.float_vector_stack\\.get_mut\\(0\\)
+            let ghost fv0 = $FV.values@;
+'''})
+
 # ------------------------------------------------------------------ C13 / C12: RAND instructions (values: relative to the RNG contract)
 row('BOOLEAN.RAND', ['C13'], pushes=[('bool', None)])
 row('INTEGER.RAND', ['C13'], fired='(S0.config.min_random_integer < S0.config.max_random_integer)',
@@ -835,6 +878,14 @@ ROWS['GRAPH.EDGE*ADD'].clauses += [
      '&& (exists|i: int| 0 <= i < %s.edges@[%s]@.len() && (#[trigger] %s.edges@[%s]@[i]).sorigin() == %s)) '
      '&& (!(%s.nodes@.contains_key(%s) && %s.nodes@.contains_key(%s)) ==> %s.edges@ == %s.edges@)'
      % (_g1, _g0, _g1, _g1, _d, _g0, _d, _g0, _o, _g0, _d, _g1, _d, _g1, _d, _g1, _d, _o, _g0, _o, _g0, _d, _g1, _g0))]
+
+_ids_ok = 'top(S0.int, 1) >= 0 && top(S0.int, 0) >= 0'     # ids are `as usize` of INTEGERs: stated for the non-negative ones
+ROWS['GRAPH.EDGE*GETWEIGHT'].clauses += [
+    ('fired.weight-pushed', '(S0.graph.n() >= 1 && S0.int.len() >= 2 && %s) ==> (match %s.weight_of(%s, %s) { Some(w) => S1.float =~= S0.float.push(w), None => S1.float == S0.float })' % (_ids_ok, _g0, _o, _d))]
+ROWS['GRAPH.EDGE*SETWEIGHT'].clauses += [
+    ('fired.weight-set', '(S0.graph.n() >= 1 && S0.float.len() >= 1 && S0.int.len() >= 2 && %s) ==> %s.nodes@ == %s.nodes@ && %s.wf() && %s.edges@.remove(%s) == %s.edges@.remove(%s) '
+     '&& (%s.weight_of(%s, %s).is_some() ==> %s.weight_of(%s, %s) == Some(top(S0.float, 0))) && (%s.weight_of(%s, %s).is_none() ==> %s.edges@ == %s.edges@)'
+     % (_ids_ok, _g1, _g0, _g1, _g1, _d, _g0, _d, _g0, _o, _d, _g1, _o, _d, _g0, _o, _d, _g1, _g0))]
 
 # FLOATVECTOR.SINE: amplitude A (top), angle velocity x (second), phase phi (third) from FLOAT, length from INTEGER (negative = 0)
 _A, _x, _phi, _n = 'top(S0.float, 0)', 'top(S0.float, 1)', 'top(S0.float, 2)', 'top(S0.int, 0)'
